@@ -2,6 +2,7 @@ package main
 
 import (
 	"go/ast"
+	"go/token"
 	"strings"
 )
 
@@ -16,6 +17,10 @@ func (t *tr) block(stmts []ast.Stmt, k func() string) string {
 		case *ast.ReturnStmt:
 			if len(rest) != 0 {
 				t.fail("statements after return")
+			}
+			if t.inJoin > 0 {
+				// (the value would be taken for the joined variables and execution would go on)
+				t.fail("return inside an if statement that falls through")
 			}
 			body := t.ret(s)
 			if t.loopRet != nil {
@@ -124,6 +129,15 @@ func (t *tr) ifStmt(s *ast.IfStmt, rest []ast.Stmt, k func() string) string {
 		if !ok {
 			t.fail("unsupported if-initialiser")
 		}
+		if as.Tok == token.DEFINE {
+			// the scope of an if-initialiser ends with the if statement: an outer variable of
+			// the same name would wrongly keep the inner value afterwards
+			for _, l := range as.Lhs {
+				if id, ok := l.(*ast.Ident); ok && id.Name != "_" && t.lookup(id.Name) != nil {
+					t.fail("if-initialiser declares %s, which shadows an outer variable", id.Name)
+				}
+			}
+		}
 		s2 := *s
 		s2.Init = nil
 		if body, took := t.assignStmt(as, append([]ast.Stmt{&s2}, rest...), k); took {
@@ -171,6 +185,10 @@ func (t *tr) changes(m mark) []item {
 	var out []item
 	seen := map[interface{}]bool{}
 	for _, e := range t.log[m.nlog:] {
+		if e.mv != nil && t.cellExistedAt(e.mv, m) {
+			// (after the join it would be usable again although one path has given it away)
+			t.fail("the pointer %s is stored into a slice in one branch of an if without return", e.mv.hint)
+		}
 		if e.o != nil && e.o.id <= m.nobj {
 			if !t.g.loops {
 				t.fail("a struct (%s) is stored to in one branch of an if without return", e.o.hint)
@@ -234,7 +252,9 @@ func (t *tr) join(cond string, thenL, elseL []ast.Stmt) {
 					switch ob.v.t.k {
 					case kBool, kInt:
 					default:
-						if nv != ob.v && (nv.c != ob.v.c || nv.o != ob.v.o || nv.e != ob.v.e) {
+						// (sameVal also compares view bounds, slot references and the nil / error
+						// state: a change of any of them in one branch only must not be dropped)
+						if !sameVal(nv, ob.v) {
 							if t.g.loops && t.ptrVarJoinable(ob.v, nv, m) {
 								break // carried as a value: see below
 							}
@@ -377,9 +397,14 @@ func simplifyLet(s string) string {
 // points to a cell that must not be written in place (the pointer differs
 // between the paths).
 func (t *tr) ptrVarJoinable(old, nv *val, m mark) bool {
+	if old.t.k == kErr || nv.t.k == kErr {
+		return false // an error (or nil) assigned in one branch only: not joined
+	}
 	switch nv.t.k {
 	case kZ, kFe:
-		return nv.c != nil && nv.c.id > m.ncell
+		// only a variable that is nil before the if: otherwise the path that keeps the old
+		// pointer would lose its alias with the old target
+		return old.isNil && nv.c != nil && nv.c.id > m.ncell
 	case kZList, kList:
 		return nv.c == nil || nv.c.id > m.ncell
 	}
